@@ -1,14 +1,481 @@
-//! placeholder, filled in later
+//! Multi-party histories against the real treasury contract (C13, the treasury half of C12, C16).
+
+use crate::engine::{addr20, addr32, Violation, WEEK};
+use crate::ops::ustr;
 use crate::run::Eval;
+use crate::util::*;
+use crate::world::*;
 use serde::{Deserialize, Serialize};
+use serde_json::{json, Value};
+
+pub const DENOMS: &[&str] = &["uosmo", "ibc/27394FB092D2ECCD56123C74F36E4C1F926001CEADA9CA97EA622B25F41E5EB2", "uatom", "factory/osmo1xyz/milkTIA", "utia", ""];
 
 #[derive(Serialize, Deserialize, Clone, Debug, PartialEq)]
-pub struct TCase {}
-
-pub fn eval(_c: &TCase) -> Eval {
-    Eval::default()
+pub struct Hop {
+    pub pool: u64,
+    pub din: u8,
+    pub dout: u8,
 }
 
-pub fn gen(_seed: u64, _prop: &str) -> TCase {
-    TCase {}
+#[derive(Serialize, Deserialize, Clone, Debug, PartialEq)]
+pub enum TOp {
+    Advance(u64),
+    ToMinTime(i64),
+    Swap { who: u8, exact_in: bool, route: Vec<Hop>, denom: u8, #[serde(with = "ustr")] amount: u128, #[serde(with = "ustr")] limit: u128 },
+    Spend { who: u8, denom: u8, #[serde(with = "ustr")] amount: u128, receiver: u8, channel: Option<u8> },
+    UpdateConfig { who: u8, trader: Option<u8>, routes: Option<Vec<Vec<Hop>>> },
+    Transfer { who: u8, cand: u8 },
+    Revoke { who: u8 },
+    Accept { who: u8 },
+    Query,
+    Migrate { stored_name: u8, stored_version: u8 },
+}
+
+#[derive(Serialize, Deserialize, Clone, Debug, PartialEq)]
+pub struct TCase {
+    pub routes: Vec<Vec<Hop>>,
+    pub admin_explicit: bool,
+    pub trader_explicit: bool,
+    pub ops: Vec<TOp>,
+    pub start_s: u64,
+}
+
+fn dn(i: u8) -> &'static str {
+    DENOMS[i as usize % DENOMS.len()]
+}
+
+fn routes_json(r: &[Vec<Hop>]) -> Value {
+    json!(r.iter().map(|rt| rt.iter().map(|h| json!({"pool_id": h.pool, "token_in_denom": dn(h.din), "token_out_denom": dn(h.dout)})).collect::<Vec<_>>()).collect::<Vec<_>>())
+}
+
+fn gen_route(rng: &mut Rng) -> Vec<Hop> {
+    let n = rng.range(1, 4);
+    (0..n).map(|_| Hop { pool: *rng.pick(&[0u64, 1, 2, 7, 1000, u64::MAX]), din: rng.below(5) as u8, dout: rng.below(5) as u8 }).collect()
+}
+
+fn derive_route(rng: &mut Rng, list: &[Vec<Hop>]) -> Vec<Hop> {
+    if list.is_empty() || rng.chance(1, 10) {
+        return if rng.chance(1, 3) { vec![] } else { gen_route(rng) };
+    }
+    let a = rng.pick(list).clone();
+    match rng.below(9) {
+        0..=3 => a,
+        4 => a[..rng.below(a.len() as u64) as usize].to_vec(),
+        5 => a[rng.below(a.len() as u64) as usize..].to_vec(),
+        6 => {
+            let mut b = a.clone();
+            b.reverse();
+            b
+        }
+        7 => {
+            let mut b = a.clone();
+            b.extend(rng.pick(list).clone());
+            b
+        }
+        _ => {
+            let mut b = a.clone();
+            if !b.is_empty() {
+                let i = rng.below(b.len() as u64) as usize;
+                match rng.below(3) {
+                    0 => b[i].pool = b[i].pool.wrapping_add(1),
+                    1 => b[i].din = (b[i].din + 1) % 5,
+                    _ => b[i].dout = (b[i].dout + 1) % 5,
+                }
+            }
+            b
+        }
+    }
+}
+
+pub fn gen(seed: u64, prop: &str) -> TCase {
+    let mut rng = Rng::new(seed);
+    let nr = rng.below(5);
+    let mut routes: Vec<Vec<Hop>> = (0..nr).map(|_| gen_route(&mut rng)).collect();
+    let n_ops = rng.range(8, 40);
+    let mut ops = vec![];
+    let own_heavy = prop == "C12";
+    let mut nominated = false;
+    for _ in 0..n_ops {
+        let k = if own_heavy { rng.below(8) + 4 } else { rng.below(14) };
+        let op = match k {
+            0..=4 => {
+                let route = derive_route(&mut rng, &routes);
+                let exact_in = rng.chance(1, 2);
+                let denom = if !route.is_empty() && rng.chance(3, 4) {
+                    if exact_in {
+                        route[0].din
+                    } else {
+                        route[route.len() - 1].dout
+                    }
+                } else {
+                    rng.below(6) as u8
+                };
+                TOp::Swap { who: if rng.chance(2, 3) { 1 } else { rng.below(6) as u8 }, exact_in, route, denom, amount: *rng.pick(&[0u128, 1, 1000, 123456789, u128::MAX]), limit: *rng.pick(&[0u128, 1, 999, u128::MAX]) }
+            }
+            5 | 6 => TOp::Spend { who: if rng.chance(2, 3) { 0 } else { rng.below(6) as u8 }, denom: rng.below(5) as u8, amount: *rng.pick(&[1u128, 1000, 5_000_000]), receiver: rng.below(8) as u8, channel: if rng.chance(1, 2) { Some(rng.below(3) as u8) } else { None } },
+            7 => {
+                let new_routes = if rng.chance(1, 2) { Some((0..rng.below(4)).map(|_| gen_route(&mut rng)).collect::<Vec<_>>()) } else { None };
+                if let Some(r) = &new_routes {
+                    if rng.chance(2, 3) {
+                        routes = r.clone();
+                    }
+                }
+                TOp::UpdateConfig { who: if rng.chance(2, 3) { 0 } else { rng.below(6) as u8 }, trader: if rng.chance(1, 2) { Some(rng.below(7) as u8) } else { None }, routes: new_routes }
+            }
+            8 => {
+                nominated = true;
+                TOp::Transfer { who: if rng.chance(3, 4) { 0 } else { rng.below(6) as u8 }, cand: rng.below(4) as u8 }
+            }
+            9 => TOp::Revoke { who: if rng.chance(1, 2) { 0 } else { rng.below(6) as u8 } },
+            10 => TOp::Accept { who: rng.below(6) as u8 },
+            11 => {
+                if nominated {
+                    TOp::ToMinTime(*rng.pick(&[-1i64, 0, 1]))
+                } else {
+                    TOp::Advance(*rng.pick(&[1u64, 3600, 86_400, 7 * 86_400]))
+                }
+            }
+            12 => TOp::Query,
+            _ => TOp::Migrate { stored_name: rng.below(3) as u8, stored_version: rng.below(6) as u8 },
+        };
+        ops.push(op);
+    }
+    TCase { routes, admin_explicit: rng.chance(1, 2), trader_explicit: rng.chance(1, 2), ops, start_s: 1_700_000_000 + rng.below(50_000_000) }
+}
+
+struct TModel {
+    admin: String,
+    /// index into the principal table of the current admin (who == 0 always means "current admin")
+    nominee: Option<(String, u64)>,
+    trader: String,
+    routes: Vec<Vec<Hop>>,
+    former: Vec<String>,
+}
+
+pub fn eval(c: &TCase) -> Eval {
+    let setup = Setup {
+        proto_prefix: "osmo".into(),
+        native_prefix: "celestia".into(),
+        valoper_prefix: "celestiavaloper".into(),
+        channel: "channel-0".into(),
+        ibc_denom: DENOMS[1].into(),
+        native_denom: "utia".into(),
+        subdenom: "milkTIA".into(),
+        staking_addr: addr32("osmo", "staking-contract"),
+        treasury_addr: addr32("osmo", "treasury-contract"),
+        oracle_addr: addr32("osmo", "oracle-contract"),
+        sink_addr: addr32("osmo", "sink-contract"),
+    };
+    let t = setup.treasury_addr.clone();
+    let mut w = World::new(setup, c.start_s * 1_000_000_000);
+    w.st.channels.insert("channel-1".into(), Chan { open: true, next_seq: 10 });
+    let mut ev = Eval::default();
+    let mut viol: Vec<Violation> = vec![];
+    // principals: 0 = current admin (dynamic), 1 = current trader (dynamic), 2.. fixed accounts
+    let fixed: Vec<String> = (0..6).map(|i| addr20("osmo", &format!("tp{}", i))).collect();
+    let deployer = fixed[0].clone();
+    let init_admin = if c.admin_explicit { fixed[1].clone() } else { deployer.clone() };
+    let init_trader = if c.trader_explicit { fixed[2].clone() } else { deployer.clone() };
+    let imsg = json!({"admin": if c.admin_explicit { Some(init_admin.clone()) } else { None }, "trader": if c.trader_explicit { Some(init_trader.clone()) } else { None }, "allowed_swap_routes": routes_json(&c.routes)});
+    let r = w.tx_instantiate(Which::Treasury, &deployer, &imsg.to_string());
+    if !r.ok {
+        viol.push(Violation { prop: "HARNESS", clause: "boot", step: 0, msg: format!("treasury instantiate failed: {}", r.err) });
+    }
+    let mut m = TModel { admin: init_admin, nominee: None, trader: init_trader, routes: c.routes.clone(), former: vec![] };
+    let receivers: Vec<String> = vec![
+        addr20("osmo", "rcv0"),
+        addr20("celestia", "rcv1"),
+        addr20("cosmos", "rcv2"),
+        addr32("osmo", "rcv3"),
+        {
+            let mut s = addr20("osmo", "rcv4");
+            let l = s.pop().unwrap();
+            s.push(if l == 'q' { 'p' } else { 'q' });
+            s
+        },
+        {
+            let mut s = addr20("celestia", "rcv5");
+            let l = s.pop().unwrap();
+            s.push(if l == 'q' { 'p' } else { 'q' });
+            s
+        },
+        String::new(),
+        "osmo1".into(),
+    ];
+    let who_addr = |m: &TModel, who: u8| -> String {
+        match who {
+            0 => m.admin.clone(),
+            1 => m.trader.clone(),
+            2 => m.nominee.as_ref().map(|n| n.0.clone()).unwrap_or_else(|| fixed[3].clone()),
+            3 => m.former.last().cloned().unwrap_or_else(|| fixed[4].clone()),
+            k => fixed[k as usize % fixed.len()].clone(),
+        }
+    };
+    let mut hash = Fnv::default();
+    let mut seen_panics = 0usize;
+    let mut swaps_ok = 0u64;
+    for (i, op) in c.ops.iter().enumerate() {
+        let step = i + 1;
+        if !viol.is_empty() {
+            break;
+        }
+        ev.stats.ops += 1;
+        let mut v = |prop: &'static str, clause: &'static str, msg: String| viol.push(Violation { prop, clause, step, msg });
+        match op {
+            TOp::Advance(s) => w.advance((*s).max(1)),
+            TOp::ToMinTime(d) => {
+                let now = w.now_s();
+                if let Some((_, t0)) = &m.nominee {
+                    let tt = (*t0 as i64 + d).max(0) as u64;
+                    if tt > now {
+                        w.advance(tt - now);
+                        ev.stats.fault("F13_deadline_landing");
+                    } else {
+                        w.advance(1);
+                    }
+                } else {
+                    w.advance(1);
+                }
+            }
+            TOp::Swap { who, exact_in, route, denom, amount, limit } => {
+                let sender = who_addr(&m, *who);
+                let rj = json!(route.iter().map(|h| json!({"pool_id": h.pool, "token_in_denom": dn(h.din), "token_out_denom": dn(h.dout)})).collect::<Vec<_>>());
+                let coin = json!({"denom": dn(*denom), "amount": amount.to_string()});
+                let msg = if *exact_in { json!({"swap_exact_amount_in": {"routes": rj, "token_in": coin, "token_out_min_amount": limit.to_string()}}) } else { json!({"swap_exact_amount_out": {"routes": rj, "token_out": coin, "token_in_max_amount": limit.to_string()}}) };
+                // serde_json prints u128 above u64 only with arbitrary precision: build the limit by hand
+                let msg_s = msg.to_string();
+                let res = w.tx_execute(&t, &sender, &[], &msg_s);
+                ev.stats.txs += 1;
+                let is_trader = sender == m.trader;
+                let listed = !route.is_empty() && m.routes.iter().any(|r| r == route);
+                // equality on denoms by value (two denom indices may name the same string only if equal mod len)
+                let listed_by_value = !route.is_empty() && m.routes.iter().any(|r| r.len() == route.len() && r.iter().zip(route.iter()).all(|(a, b)| a.pool == b.pool && dn(a.din) == dn(b.din) && dn(a.dout) == dn(b.dout)));
+                let _ = listed;
+                let endpoint = !route.is_empty() && if *exact_in { dn(route[0].din) == dn(*denom) } else { dn(route[route.len() - 1].dout) == dn(*denom) };
+                let pred = is_trader && listed_by_value && endpoint;
+                if res.ok {
+                    ev.stats.tx_ok += 1;
+                    if !is_trader {
+                        v("C13", "swap_trader_only", format!("swap by {} (trader is {}) executed", sender, m.trader));
+                    } else if !listed_by_value {
+                        v("C13", "swap_route_allow_listed", format!("route {:?} not in allow-list {:?} executed", route, m.routes));
+                    } else if !endpoint {
+                        v("C13", "swap_endpoint_denom", format!("coin denom {:?} does not match the route end point {:?}", dn(*denom), route));
+                    }
+                    let swaps: Vec<&Effect> = res.effects.iter().filter(|e| matches!(e, Effect::Swap { .. })).collect();
+                    let others = res.effects.iter().any(|e| !matches!(e, Effect::Swap { .. } | Effect::Exec { .. }));
+                    let want_routes: Vec<(u64, String)> = route.iter().map(|h| (h.pool, if *exact_in { dn(h.dout).to_string() } else { dn(h.din).to_string() })).collect();
+                    let good = match swaps.as_slice() {
+                        [Effect::Swap { sender: s, exact_in: ei, routes, coin, limit: l }] => *s == t && *ei == *exact_in && *routes == want_routes && coin.0 == dn(*denom) && coin.1 == *amount && *l == limit.to_string(),
+                        _ => false,
+                    };
+                    if !good || others {
+                        v("C13", "swap_message_faithful", format!("request route={:?} coin={}{} limit={} exact_in={} but emitted {:?}", route, amount, dn(*denom), limit, exact_in, res.effects));
+                    }
+                    swaps_ok += 1;
+                    if route.len() > 1 {
+                        ev.stats.probe("multi_hop_swap_executed");
+                    }
+                } else if pred && !res.panicked {
+                    v("C13", "trader_on_allowed_route_succeeds", format!("trader's swap on allow-listed route {:?} refused: {}", route, res.err));
+                } else if is_trader && !listed_by_value && !route.is_empty() {
+                    ev.stats.probe("near_miss_route_refused");
+                }
+            }
+            TOp::Spend { who, denom, amount, receiver, channel } => {
+                let sender = who_addr(&m, *who);
+                let rcv = receivers[*receiver as usize % receivers.len()].clone();
+                let d = if dn(*denom).is_empty() { "uosmo" } else { dn(*denom) };
+                w.st.bank.mint(&t, d, *amount);
+                let ch = channel.map(|c| format!("channel-{}", c));
+                let msg = json!({"spend_funds": {"amount": {"denom": d, "amount": amount.to_string()}, "receiver": rcv, "channel_id": ch}});
+                let res = w.tx_execute(&t, &sender, &[], &msg.to_string());
+                ev.stats.txs += 1;
+                let auth = sender == m.admin;
+                let want_prefix = if ch.is_some() { "celestia" } else { "osmo" };
+                let valid = b32_decode(&rcv).map(|x| x.0 == want_prefix).unwrap_or(false);
+                if res.ok {
+                    ev.stats.tx_ok += 1;
+                    if !auth {
+                        v("C13", "spend_admin_only", format!("SpendFunds by {} (admin is {}) executed", sender, m.admin));
+                    } else if !valid {
+                        v("C13", "spend_prefix_rules", format!("SpendFunds to {:?} over {:?} executed", rcv, ch));
+                    }
+                    let exact = match &ch {
+                        None => {
+                            let sends: Vec<&Effect> = res.effects.iter().filter(|e| !matches!(e, Effect::Exec { .. })).collect();
+                            matches!(sends.as_slice(), [Effect::BankSend { from, to, denom: dd, amount: a }] if *from == t && *to == rcv && dd == d && *a == *amount)
+                        }
+                        Some(chn) => {
+                            let sends: Vec<&Effect> = res.effects.iter().filter(|e| !matches!(e, Effect::Exec { .. } | Effect::ReplyCalled { .. })).collect();
+                            match sends.as_slice() {
+                                [Effect::IbcSend { pkt }] => {
+                                    let p = &w.st.packets[*pkt];
+                                    p.sender == t && p.receiver == rcv && p.denom == d && p.amount == *amount && p.channel == *chn
+                                }
+                                _ => false,
+                            }
+                        }
+                    };
+                    if !exact {
+                        v("C13", "spend_exact_coin_and_receiver", format!("SpendFunds {}{} to {} over {:?} emitted {:?}", amount, d, rcv, ch, res.effects));
+                    }
+                }
+            }
+            TOp::UpdateConfig { who, trader, routes } => {
+                let sender = who_addr(&m, *who);
+                let tr = trader.map(|k| if k == 6 { "not-an-address".to_string() } else { fixed[k as usize % fixed.len()].clone() });
+                let msg = json!({"update_config": {"trader": tr, "allowed_swap_routes": routes.as_ref().map(|r| routes_json(r))}});
+                let res = w.tx_execute(&t, &sender, &[], &msg.to_string());
+                ev.stats.txs += 1;
+                if res.ok {
+                    ev.stats.tx_ok += 1;
+                    if sender != m.admin {
+                        v("C13", "update_config_admin_only", format!("UpdateConfig by {} (admin {}) succeeded", sender, m.admin));
+                    }
+                    if let Some(tr) = tr {
+                        m.trader = tr;
+                    }
+                    if let Some(r) = routes {
+                        m.routes = r.clone();
+                    }
+                    ev.stats.fault("F16_config_change_mid_history");
+                }
+            }
+            TOp::Transfer { who, cand } => {
+                let sender = who_addr(&m, *who);
+                let cnd = fixed[2 + *cand as usize % 4].clone();
+                let res = w.tx_execute(&t, &sender, &[], &json!({"transfer_ownership": {"new_owner": cnd}}).to_string());
+                ev.stats.txs += 1;
+                if res.ok {
+                    ev.stats.tx_ok += 1;
+                    if sender != m.admin {
+                        v("C12", "nominate_admin_only", format!("treasury TransferOwnership by {} succeeded", sender));
+                    }
+                    if m.nominee.is_some() {
+                        ev.stats.probe("renomination_restarts_clock");
+                    }
+                    m.nominee = Some((cnd, w.now_s() + WEEK));
+                }
+            }
+            TOp::Revoke { who } => {
+                let sender = who_addr(&m, *who);
+                let res = w.tx_execute(&t, &sender, &[], &json!({"revoke_ownership_transfer": {}}).to_string());
+                ev.stats.txs += 1;
+                if res.ok {
+                    ev.stats.tx_ok += 1;
+                    if sender != m.admin {
+                        v("C12", "revoke_admin_only", format!("treasury RevokeOwnershipTransfer by {} succeeded", sender));
+                    }
+                    m.nominee = None;
+                }
+            }
+            TOp::Accept { who } => {
+                let sender = who_addr(&m, *who);
+                let now = w.now_s();
+                let pred = m.nominee.as_ref().map(|(n, t0)| *n == sender && now >= *t0).unwrap_or(false);
+                if let Some((n, t0)) = &m.nominee {
+                    if *n == sender && now == *t0 {
+                        ev.stats.probe("accept_exactly_at_min_time");
+                    }
+                    if *n == sender && now + 1 == *t0 {
+                        ev.stats.probe("accept_one_second_early");
+                    }
+                }
+                let res = w.tx_execute(&t, &sender, &[], &json!({"accept_ownership": {}}).to_string());
+                ev.stats.txs += 1;
+                if res.ok != pred {
+                    if res.ok {
+                        v("C12", "accept_only_nominee_after_7d", format!("treasury AcceptOwnership by {} at {} with nomination {:?} succeeded", sender, now, m.nominee));
+                    } else if !res.panicked {
+                        v("C12", "nominee_can_accept_after_7d", format!("treasury AcceptOwnership by the nominee at {} (nomination {:?}) refused: {}", now, m.nominee, res.err));
+                    }
+                }
+                if res.ok {
+                    ev.stats.tx_ok += 1;
+                    let old = m.admin.clone();
+                    m.former.push(old.clone());
+                    m.admin = sender.clone();
+                    m.nominee = None;
+                    let probe = json!({"update_config": {"trader": Value::Null, "allowed_swap_routes": Value::Null}}).to_string();
+                    if old != sender {
+                        let r = w.tx_execute(&t, &old, &[], &probe);
+                        if r.ok {
+                            v("C12", "former_admin_loses_rights", format!("former treasury admin {} still passes an admin-only message", old));
+                        }
+                    }
+                    let r = w.tx_execute(&t, &sender, &[], &probe);
+                    if !r.ok {
+                        v("C12", "new_admin_has_rights", format!("new treasury admin refused: {}", r.err));
+                    }
+                    let r = w.tx_execute(&t, &sender, &[], &json!({"accept_ownership": {}}).to_string());
+                    if r.ok {
+                        v("C12", "acceptance_consumes_nomination", "second treasury AcceptOwnership succeeded".into());
+                    }
+                }
+            }
+            TOp::Query => {}
+            TOp::Migrate { stored_name, stored_version } => {
+                // version gate of the treasury contract (C18) on the live store
+                let names = ["treasury", "staking", "crates.io:treasury"];
+                let versions = ["0.4.19", "0.4.20", "0.4.21", "0.1.0", "garbage", "1.0.0"];
+                let name = names[*stored_name as usize % names.len()];
+                let ver = versions[*stored_version as usize % versions.len()];
+                let saved = w.st.treasury.map.get(&b"contract_info".to_vec()).cloned();
+                w.st.treasury.map.insert(b"contract_info".to_vec(), serde_json::to_vec(&json!({"contract": name, "version": ver})).unwrap());
+                let before = w.st.treasury.map.clone();
+                let res = w.tx_migrate(Which::Treasury, "{}");
+                ev.stats.txs += 1;
+                let code_ver: String = saved.as_ref().and_then(|b| serde_json::from_slice::<Value>(b).ok()).and_then(|v| v["version"].as_str().map(|s| s.to_string())).unwrap_or_default();
+                let ct: Vec<u64> = code_ver.split('.').filter_map(|x| x.parse().ok()).collect();
+                let older = ct.len() == 3 && crate::migr::semver_lt(ver, (ct[0], ct[1], ct[2])) == Some(true);
+                let should = name == "treasury" && older;
+                if res.ok != should && !res.panicked {
+                    v("C18", "treasury_version_gate", format!("treasury migrate from ({}, {}) returned ok={} ({})", name, ver, res.ok, res.err));
+                }
+                if !res.ok && w.st.treasury.map != before {
+                    v("C18", "refused_migration_changes_nothing", "refused treasury migration changed storage".into());
+                }
+                if let Some(s) = saved {
+                    w.st.treasury.map.insert(b"contract_info".to_vec(), s);
+                }
+            }
+        }
+        // panics (C16)
+        while seen_panics < w.panics.len() {
+            let p = &w.panics[seen_panics];
+            seen_panics += 1;
+            viol.push(Violation { prop: "C16", clause: "panic", step, msg: format!("{}::{} panicked: {} | input: {}", p.contract, p.entry, p.msg, p.input) });
+        }
+        // Config query equals the model (C12 admin, C13 trader/routes)
+        match w.query(Which::Treasury, "{\"config\":{}}") {
+            Ok(b) => {
+                let cfg: Value = serde_json::from_slice(&b).unwrap_or(Value::Null);
+                if cfg["admin"].as_str() != Some(m.admin.as_str()) {
+                    viol.push(Violation { prop: "C12", clause: "admin_changes_only_by_handover", step, msg: format!("treasury Config.admin is {} but the model has {}", cfg["admin"], m.admin) });
+                }
+                if cfg["trader"].as_str() != Some(m.trader.as_str()) || cfg["allowed_swap_routes"] != routes_json(&m.routes) {
+                    viol.push(Violation { prop: "C13", clause: "config_follows_admin_updates", step, msg: format!("treasury config {} differs from model trader {} routes {:?}", cfg, m.trader, m.routes) });
+                }
+            }
+            Err(e) => viol.push(Violation { prop: "C16", clause: "queries_fail", step, msg: format!("treasury Config query failed: {}", e) }),
+        }
+        while seen_panics < w.panics.len() {
+            let p = &w.panics[seen_panics];
+            seen_panics += 1;
+            viol.push(Violation { prop: "C16", clause: "panic", step, msg: format!("{}::{} panicked: {} | input: {}", p.contract, p.entry, p.msg, p.input) });
+        }
+        hash.str(&format!("{:?}", std::mem::discriminant(op)));
+        hash.u64(w.st.tx_no);
+        hash.str(&m.admin);
+        hash.str(&m.trader);
+    }
+    ev.viol = viol;
+    ev.hash = hash.0;
+    ev.nontrivial = ev.stats.tx_ok >= 2;
+    ev.faulted = ev.stats.faults.values().sum::<u64>() > 0;
+    if swaps_ok > 0 {
+        ev.stats.probe("swap_executed");
+    }
+    ev
 }
